@@ -4,7 +4,7 @@ PROPS[pid]["rules"] = [(rule id, floor of decided instances, selector over insta
 Floors are the numbers counted on the tree the rules were written against: a rule that suddenly
 matches fewer sites is a broken check (exit 2), never a silent pass.
 """
-from . import tr, di, ug, em, wt, mf, lp, wc, mk, nc, lt, td, pm, hs, ws, tf, ec, se, bb, lc, cm, vt, bt, sr, le, wf, dp, dt, he, gl, ts, ee, sl, wp, fs, ic, nb, im, rn, mp, sp, ms, cp, sh, st, rh, vo, wi, law, cn, pr, dtr, sa, vx, fd, uv, tx, df, dn, pa, ul
+from . import tr, di, ug, em, wt, mf, lp, wc, mk, nc, lt, td, pm, hs, ws, tf, ec, se, bb, lc, cm, vt, bt, sr, le, wf, dp, dt, he, gl, ts, ee, sl, wp, fs, ic, nb, im, rn, mp, sp, ms, cp, sh, st, rh, vo, wi, law, cn, pr, dtr, sa, vx, fd, uv, tx, df, dn, pa, ul, bs
 
 
 def _k(r):
@@ -36,6 +36,7 @@ RULES = {
     "LP": {"run": lp.run},
     "UG": {"run": ug.run},
     "UL": {"run": ul.run},
+    "BS": {"run": bs.run},
     "DI": {"run": di.run},
     "TR": {"run": tr.run},
     "EM": {"run": em.run},
@@ -140,7 +141,7 @@ PROPS = {
     },
     "C06": {
         "level": "other",
-        "rules": [("PA", 1, None), ("UL", 0, None), ("DN", 1, None), ("DI", 0, None), ("WC", 2, has("watch-tables")), ("DF", 1, has("UnitPropagate", "VarOrder", "label-tables")), ("CP", 4, has("decision_nnf::")), ("TS", 7, has("TS-BAL")), ("DP", 3, has("topdown")),
+        "rules": [("PA", 1, None), ("UL", 0, None), ("BS", 0, None), ("DN", 1, None), ("DI", 0, None), ("WC", 2, has("watch-tables")), ("DF", 1, has("UnitPropagate", "VarOrder", "label-tables")), ("CP", 4, has("decision_nnf::")), ("TS", 7, has("TS-BAL")), ("DP", 3, has("topdown")),
                   ("GL", 3, has("component-cache", "topdown_h:GL11")), ("SP", 10, has("SP1")),
                   ("GL", 1, has("GL3:return-found")), ("RH", 1, has("grow:rehome")),
                   ("SH", 6, has("decision_nnf::")), ("RN", 3, has("RN4")),
@@ -242,7 +243,7 @@ PROPS = {
     },
     "C09": {
         "level": "other",
-        "rules": [("PA", 1, None), ("UL", 0, None), ("DI", 0, None), ("WC", 2, has("watch-tables")), ("DF", 1, has("UnitPropagate", "label-tables")), ("WP", 14, has("unit_prop")), ("TS", 5, has("TS-STK")), ("WI", 1, None), ("PR", 1, has("SATSolver")),
+        "rules": [("PA", 1, None), ("UL", 0, None), ("BS", 0, None), ("DI", 0, None), ("WC", 2, has("watch-tables")), ("DF", 1, has("UnitPropagate", "label-tables")), ("WP", 14, has("unit_prop")), ("TS", 5, has("TS-STK")), ("WI", 1, None), ("PR", 1, has("SATSolver")),
                   ("LT", 2, has("UnitPropagate")), ("PM", 5, has("::get:", "::unset:", "::is_set:", "::lit_implied:", "::lit_neg_implied:")),
                   ("WS", 20, None), ("TF", 1, None), ("EC", 4, None), ("LC", 1, has("UnitPropagate::decide")), ("LP", 6, None), ("UG", 1, None), ("EM", 2, has("unit_prop"))],
         "explanation": "Every pos/neg watch-list / occurrence-table access in unit_prop.rs is selected by the polarity of "
@@ -292,7 +293,7 @@ PROPS = {
     },
     "C15": {
         "level": "other",
-        "rules": [("PA", 1, None), ("UL", 0, None), ("DI", 0, None), ("DF", 1, has("CnfHasher", "label-tables")), ("EE", 3, None), ("IC", 5, has("repr::cnf::")), ("WP", 1, has("repr::cnf::")),
+        "rules": [("PA", 1, None), ("UL", 0, None), ("BS", 0, None), ("DI", 0, None), ("DF", 1, has("CnfHasher", "label-tables")), ("EE", 3, None), ("IC", 5, has("repr::cnf::")), ("WP", 1, has("repr::cnf::")),
                   ("FS", 3, has("repr::cnf::", "assignment_weight")), ("CN", 2, None),
                   ("PR", 1, has("CnfHasher")), ("LT", 2, has("CnfHasher")),
                   ("PM", 9, None), ("HS", 5, None), ("LC", 2, has("is_sat_partial", "Cnf::eval", "Cnf::condition")), ("LP", 6, None), ("WT", 1, has("from_litvec")), ("DP", 1, has("from_string:sign")), ("EM", 6, has("repr::cnf::"))],
@@ -356,8 +357,9 @@ _R11 = {
     "BB5": "Added (round 11): BB5 - a pruning test behind a private predicate is evaluated at witness points: an upper bound above the incumbent by however little must be explored (a fixed tolerance prunes improving branches).",
     "GL2": "Added (round 11): GL2 slot-after-growth also through a private slot helper that is handed the table.",
     "RHD": "Added (round 11): RH displaced-from-own-slot takes the slot write on either side of the displacement.",
+    "BS": "Added (round 11): BS - a binary search in the methods of a type uses the ordering those methods sort by (a bisection by label over data sorted by Literal's polarity-major order is a stated contradiction).",
 }
-for _pid, _ks in {"C01": ("EDG", "GL2"), "C02": ("RHD",), "C03": ("RNM", "GL2"), "C04": ("RNM", "RHD"), "C05": ("NCC",), "C06": ("UL",),
-                  "C07": ("EDG", "SPV"), "C08": ("SPV",), "C09": ("UL",), "C10": ("SPV",), "C12": ("BB5",), "C14": ("NCC",),
-                  "C15": ("UL",), "C16": ("GL2",), "C17": ("DPL",), "C19": ("DPL", "NCC")}.items():
+for _pid, _ks in {"C01": ("EDG", "GL2"), "C02": ("RHD",), "C03": ("RNM", "GL2"), "C04": ("RNM", "RHD"), "C05": ("NCC",), "C06": ("UL", "BS"),
+                  "C07": ("EDG", "SPV"), "C08": ("SPV",), "C09": ("UL", "BS"), "C10": ("SPV",), "C12": ("BB5",), "C14": ("NCC",),
+                  "C15": ("UL", "BS"), "C16": ("GL2",), "C17": ("DPL",), "C19": ("DPL", "NCC")}.items():
     PROPS[_pid]["explanation"] = PROPS[_pid]["explanation"].rstrip() + " " + " ".join(_R11[k] for k in _ks)
